@@ -1,4 +1,5 @@
-(* C03 -- No byte string makes decoding panic, overflow, hang or index out of bounds.       (PARTIAL, grows with the models)
+(* C03 -- No byte string makes decoding panic, overflow, hang or index out of bounds.
+   (FULL at model level for every decode path: container, lossless decoder, VP8 key-frame decoder (module VS: EVERY byte string), read_image / read_frame glue.)
    Safety theorems (no Panic outcome of the model = no panic / checked-arithmetic overflow / out-of-bounds index of the
    Rust code it mirrors) for the components modelled so far; the remaining components are covered by the direct search
    on the implementation only (harness c03: structured mutation of valid files, full API sequence, checked build,
@@ -15,6 +16,10 @@ From WebP Require Model.LosslessTransform Proofs.C04_bits Spec.PrefixCode
   Proofs.C01T_repr Proofs.C01T_green Proofs.C01T_color Proofs.C01T_index Proofs.C01T_palette Proofs.C01T_pred_spec Proofs.C01T_predictor Proofs.C01T_frame
   Proofs.C01_stream Proofs.C01_symbols Proofs.C01_codes Proofs.C01_pixlib Proofs.C01_pixels Proofs.C01_groups Proofs.C01_gspec Proofs.C01_final Proofs.C01_top.
 From WebP Require Spec.Container Model.ReadImage Proofs.Container_bytes Proofs.C01_top Proofs.ReadImage_base Proofs.ReadImage_container Proofs.ReadImage_vp8l Proofs.ReadImage_lossless Proofs.ReadImage_lossy Proofs.ReadImage_stillspec Proofs.ReadImage_wrap Proofs.ReadImage_safe Proofs.ReadImage_frame Proofs.ReadImage_anim.
+From WebP Require Model.Vp8Parse Model.Vp8Frame Model.Vp8Recon Model.Vp8Decode Proofs.C15_model Proofs.VP8_parse_coeffs Proofs.VP8_parse_residual
+  Proofs.VP8_frame_loop Proofs.VP8_decode_shape Proofs.VP8_safe_defs Proofs.VP8_safe_inv Proofs.VP8_safe_residual Proofs.VP8_safe_loop
+  Proofs.VP8_safe_header Proofs.VP8_safe_recon_filter Proofs.VP8_safe_recon_rel Proofs.VP8_safe_recon Proofs.VP8_safe_readimage
+  Proofs.VP8_safe_main Proofs.VP8_safe_interleave Proofs.VP8_safe_example.
 Import ListNotations.
 Open Scope Z_scope.
 
@@ -229,3 +234,159 @@ Module RI.
   Proof. exact ReadImage_safe.decode_frame_payload_no_panic. Qed.
 
 End RI.
+
+(* ---------------- the VP8 key-frame decoder (Model/Vp8Decode.v = Vp8Frame.parse_frame + Vp8Recon.decode_frame_planes) ----------------
+   READY TO PASTE at the end of coq/Properties/C03.v (after `End RI.`).
+   Extra Requires for the header of Properties/C03.v:
+     From WebP Require Model.Vp8Parse Model.Vp8Frame Model.Vp8Recon Model.Vp8Decode Proofs.C15_model Proofs.VP8_parse_coeffs Proofs.VP8_parse_residual
+       Proofs.VP8_frame_loop Proofs.VP8_decode_shape Proofs.VP8_safe_defs Proofs.VP8_safe_inv Proofs.VP8_safe_residual Proofs.VP8_safe_loop
+       Proofs.VP8_safe_header Proofs.VP8_safe_recon_filter Proofs.VP8_safe_recon_rel Proofs.VP8_safe_recon Proofs.VP8_safe_readimage
+       Proofs.VP8_safe_main Proofs.VP8_safe_interleave Proofs.VP8_safe_example.
+   VS.vp8_decode_never_panics: for EVERY byte string shorter than 2^63 the model of Vp8Decoder::decode_frame returns Ok or Err -- no
+   panic (index, slice, overflow of checked u8 / i16 / i32 / usize arithmetic, assert!, panic!("unknown token"), division by a zero
+   partition count) and no fuel exhaustion; on Ok the planes have the announced sizes.  VS.read_image_never_panics /
+   VS.read_frame_payload_never_panics: the glue theorems of module RI with the real frame decoder plugged in, no hypothesis about it left.
+   VS.vp8_safe_refuted: the hypothesis `vp8_safe` of RI.read_image_no_panic is too strong for the real decoder (it demands width, height >= 1
+   of every Ok frame; a header with width 0 is accepted and gives an empty 0 x 16 frame -- crate and model agree); the glue only needs
+   vp8_safe_bytes (RI-style theorems VS.read_image_no_panic_bytes / VS.decode_frame_payload_no_panic_bytes). *)
+Module VS.
+  Import Lib.Res Lib.ZBits Model.ArithDec Model.Vp8Parse Model.Vp8Frame Model.Vp8Recon Proofs.C15_model Proofs.VP8_parse_base Proofs.VP8_parse_coeffs Proofs.VP8_parse_residual
+    Proofs.VP8_frame_loop Proofs.VP8_decode_shape Proofs.ReadImage_lossy Proofs.ReadImage_safe
+    Proofs.VP8_safe_defs Proofs.VP8_safe_inv Proofs.VP8_safe_residual Proofs.VP8_safe_loop Proofs.VP8_safe_header
+    Proofs.VP8_safe_recon_filter Proofs.VP8_safe_recon_rel Proofs.VP8_safe_recon Proofs.VP8_safe_readimage Proofs.VP8_safe_main
+    Proofs.VP8_safe_interleave Proofs.VP8_safe_example.
+
+  (* ----- the theorem ----- *)
+  Theorem vp8_decode_total : forall data, Forall byte data -> C15_model.len data < 2 ^ 63 ->
+    (exists e, Vp8Decode.decode_frame data = Err e) \/
+    exists w h yp up vp, Vp8Decode.decode_frame data = Ok (w, h, yp, up, vp) /\ frame_result_ok w h yp up vp.
+  Proof. exact VP8_safe_main.vp8_decode_total. Qed.
+
+  Theorem vp8_decode_never_panics : forall data, Forall byte data -> C15_model.len data < 2 ^ 63 ->
+    (forall p, Vp8Decode.decode_frame data <> Panic p) /\ Vp8Decode.decode_frame data <> OutOfFuel.
+  Proof. exact VP8_safe_main.vp8_decode_never_panics. Qed.
+
+  Theorem vp8_decode_safe_bytes : vp8_safe_bytes Vp8Decode.decode_frame.
+  Proof. exact VP8_safe_main.vp8_decode_safe_bytes. Qed.
+
+  (* the stronger vp8_safe (1 <= width, height of every Ok frame; every integer list) is refuted by a width-0 header *)
+  Theorem vp8_safe_refuted : ~ vp8_safe Vp8Decode.decode_frame.
+  Proof. exact VP8_safe_main.vp8_safe_refuted. Qed.
+
+  Theorem width0_decodes : Forall byte width0_payload /\ Vp8Decode.decode_frame width0_payload = Ok (0, 16, [], [], []).
+  Proof. exact VP8_safe_main.width0_decodes. Qed.
+
+  (* ----- the pieces: parsing half ----- *)
+  (* Vp8Decoder::new + read_frame_header on every byte string: Err, or Ok with the loop invariant and in-range reconstruction fields *)
+  Theorem read_frame_header_safe : forall data, Forall byte data -> C15_model.len data < 2 ^ 63 ->
+    exists v0, Vp8_new data = Ok v0 /\
+    ((exists e, read_frame_header v0 = Err e) \/ exists v, read_frame_header v0 = Ok v /\ vp8_inv v /\ rhdr_ok (rhdr_of_vp8 v)).
+  Proof. exact VP8_safe_header.read_frame_header_safe. Qed.
+
+  (* read_residual_data (read_coefficients, inverse WHT / DCT, context updates) from any well-formed state, any reader position *)
+  Theorem read_residual_data_safe : forall (v : Vp8) (mb t : MacroBlock) (mbx p : Z) (d : Dec) (seg : Segment),
+    (exists P, tables_ok P /\ token_nodes_of P = Ok (v_token_probs v)) ->
+    0 <= mb_segmentid mb -> nth_error (v_segment v) (Z.to_nat (mb_segmentid mb)) = Some seg -> seg_q_ok seg ->
+    0 <= p -> nth_error (v_partitions v) (Z.to_nat p) = Some d -> part_live d ->
+    0 <= mbx -> nth_error (v_top v) (Z.to_nat mbx) = Some t ->
+    length (mb_complexity t) = 9%nat -> length (mb_complexity (v_left v)) = 9%nat ->
+    cx_ok (mb_complexity t) -> cx_ok (mb_complexity (v_left v)) ->
+    rrd_post v p mbx t (read_residual_data v mb mbx p).
+  Proof. exact VP8_safe_residual.read_residual_data_safe. Qed.
+
+  Theorem parse_macroblock_safe : forall v mbx p, vp8_inv v -> 0 <= mbx < v_mbwidth v -> 0 <= p < v_num_partitions v ->
+    (exists e, parse_macroblock v mbx p = Err e) \/
+    exists mb blocks v', parse_macroblock v mbx p = Ok (mb, blocks, v') /\ vp8_inv v' /\ same_hdr v v' /\ mbout_ok (mb, blocks).
+  Proof. exact VP8_safe_loop.parse_macroblock_safe. Qed.
+
+  Theorem parse_frame_loop_safe : forall v, vp8_inv v -> 0 <= v_mbwidth v ->
+    (exists e, parse_frame_loop v = Err e) \/
+    exists recs v', parse_frame_loop v = Ok (recs, v') /\ same_hdr v v' /\ Forall mbout_ok recs /\
+                    length recs = (Z.to_nat (v_mbheight v) * Z.to_nat (v_mbwidth v))%nat.
+  Proof. exact VP8_safe_loop.parse_frame_loop_safe. Qed.
+
+  (* ----- the pieces: reconstruction half ----- *)
+  (* calculate_filter_parameters for every header state a stream can produce (no restriction on the segment-adjusted base) *)
+  Theorem filter_parameters_kernel_safe : forall (frame : Z) (en d : bool) (sl r0 m0 luma sh : Z),
+    0 <= frame <= 63 -> lf63 sl -> lf63 r0 -> lf63 m0 -> 0 <= sh <= 7 ->
+    Gen.Kernels.calculate_filter_parameters_ok frame en d sl r0 m0 luma sh true = true /\
+    exists level il hev,
+      Gen.Kernels.calculate_filter_parameters frame en d sl r0 m0 luma sh true = [level; il; hev] /\
+      0 <= level <= 63 /\ 1 <= il <= 63 /\ 0 <= hev <= 2.
+  Proof. exact VP8_safe_recon_filter.cfp_safe. Qed.
+
+  Theorem loop_filter_safe : forall h mx my mb b, fhdr_ok h -> seg_id_ok mb -> 0 <= mx < rh_mbwidth h -> 0 <= my < rh_mbheight h ->
+    pst3 (rh_mbwidth h) (rh_mbheight h) b ->
+    exists b', Vp8Recon.loop_filter h mx my mb b = Ok b' /\ pst3 (rh_mbwidth h) (rh_mbheight h) b'.
+  Proof. exact VP8_safe_recon_filter.loop_filter_safe. Qed.
+
+  Theorem reconstruct_safe : forall h recs, rhdr_ok h -> Forall rec_ok recs -> length recs = Z.to_nat (rh_mbwidth h * rh_mbheight h) ->
+    exists s, Vp8Recon.reconstruct h recs = Ok s /\
+      pst3 (rh_mbwidth h) (rh_mbheight h) (rs_ybuf s, rs_ubuf s, rs_vbuf s) /\ rs_macroblocks s = map fst recs.
+  Proof. exact VP8_safe_recon_rel.reconstruct_safe. Qed.
+
+  (* prediction + loop filter + crop for every in-range header (sizes 0..16383) and every list of records the parser can hand on *)
+  Theorem decode_frame_planes_safe : forall (h : RHdr) (recs : list (MacroBlock * list Z)),
+    rhdr_ok h -> Forall rec_ok recs -> length recs = Z.to_nat (rh_mbwidth h * rh_mbheight h) ->
+    exists y u v, Vp8Recon.decode_frame_planes h recs = Ok (y, u, v) /\
+                  (1 <= rh_width h -> 1 <= rh_height h -> planes_ok (rh_width h) (rh_height h) y u v).
+  Proof. exact VP8_safe_recon.decode_frame_planes_safe. Qed.
+
+
+  (* the order of the Rust text (parse one macroblock, reconstruct it, next) gives the same result as the Model's "all parsing, then all
+     reconstruction", for EVERY payload: reconstructing a macroblock the parser has handed on never fails, so a parsing error in macroblock k
+     is what both return.  decode_frame_il = the interleaved loop written with the same functions of Model.Vp8Frame / Model.Vp8Recon *)
+  Theorem decode_interleaved_eq : forall data, Forall byte data -> C15_model.len data < 2 ^ 63 ->
+    decode_frame_il data = Vp8Decode.decode_frame data.
+  Proof. exact VP8_safe_interleave.decode_interleaved_eq. Qed.
+
+  Theorem decode_interleaved_never_panics : forall data, Forall byte data -> C15_model.len data < 2 ^ 63 ->
+    (forall p, decode_frame_il data <> Panic p) /\ decode_frame_il data <> OutOfFuel.
+  Proof. exact VP8_safe_interleave.decode_interleaved_never_panics. Qed.
+
+  Theorem recon_mb_safe : forall h mx my mb bl s, 0 <= mx < rh_mbwidth h -> 0 <= my < rh_mbheight h -> rs_inv h mx my s -> rec_ok (mb, bl) ->
+    exists s', Vp8Recon.recon_mb h mx my mb bl s = Ok s' /\ rs_inv h (mx + 1) my s'.
+  Proof. exact VP8_safe_interleave.recon_mb_safe. Qed.
+
+  (* ----- the glue of module RI from the weaker (true) hypothesis, and closed ----- *)
+  Theorem read_image_no_panic_bytes : forall vp8, vp8_safe_bytes vp8 ->
+    forall (file : list Z) (dec : Container_bytes.M.decoder) (buf : list Z),
+    Spec.Container.all_bytes file = true -> Spec.Container.len file <= 9223372036854775807 -> Container_bytes.M.new file = Ok dec ->
+    Container_bytes.M.is_animated dec = false ->
+    Container_safety.safe (fst (Model.ReadImage.read_image vp8 dec buf)).
+  Proof. exact VP8_safe_readimage.read_image_no_panic_bytes. Qed.
+
+  Theorem decode_frame_payload_no_panic_bytes : forall vp8, vp8_safe_bytes vp8 ->
+    forall file dec pos,
+    Spec.Container.all_bytes file = true -> Spec.Container.len file <= 9223372036854775807 -> Container_bytes.M.new file = Ok dec -> 0 <= pos ->
+    Container_safety.safe (fst (Model.ReadImage.decode_frame_payload vp8 dec pos)).
+  Proof. exact VP8_safe_readimage.decode_frame_payload_no_panic_bytes. Qed.
+
+  Theorem read_image_never_panics : forall (file : list Z) (dec : Container_bytes.M.decoder) (buf : list Z),
+    Spec.Container.all_bytes file = true -> Spec.Container.len file <= 9223372036854775807 ->
+    Container_bytes.M.new file = Ok dec -> Container_bytes.M.is_animated dec = false ->
+    Container_safety.safe (fst (Model.ReadImage.read_image Vp8Decode.decode_frame dec buf)).
+  Proof. exact VP8_safe_main.read_image_never_panics. Qed.
+
+  Theorem read_frame_payload_never_panics : forall (file : list Z) (dec : Container_bytes.M.decoder) (pos : Z),
+    Spec.Container.all_bytes file = true -> Spec.Container.len file <= 9223372036854775807 ->
+    Container_bytes.M.new file = Ok dec -> 0 <= pos ->
+    Container_safety.safe (fst (Model.ReadImage.decode_frame_payload Vp8Decode.decode_frame dec pos)).
+  Proof. exact VP8_safe_main.read_frame_payload_never_panics. Qed.
+
+  (* non-vacuity: every outcome class occurs, on valid, truncated and garbage payloads (status 0 = Ok, else the error code) *)
+  Example outcomes :
+    outcome (Vp8Decode.decode_frame VP8_frame_main.ex_payload) = (0, 39, 2, 78, 20) /\
+    outcome (Vp8Decode.decode_frame garbage_frame) = (0, 33, 17, 561, 153) /\
+    outcome (Vp8Decode.decode_frame ([16; 1; 0; 157; 1; 42; 1; 0; 1; 0] ++ repeat 0 9)) = (0, 1, 1, 1, 1) /\
+    outcome (Vp8Decode.decode_frame width0_payload) = (0, 0, 16, 0, 0) /\
+    outcome (Vp8Decode.decode_frame (firstn 100 VP8_frame_main.ex_payload)) = (1, 0, 0, 0, 0) /\
+    outcome (Vp8Decode.decode_frame []) = (1, 0, 0, 0, 0) /\
+    outcome (Vp8Decode.decode_frame ([16; 1; 0; 157; 1; 43; 200; 0; 100; 0] ++ repeat 0 8 ++ repeat 90 50)) = (2, 0, 0, 0, 0) /\
+    outcome (Vp8Decode.decode_frame ([16; 1; 0; 157; 1; 42; 200; 0; 100; 0] ++ [128] ++ repeat 0 7 ++ repeat 90 50)) = (3, 0, 0, 0, 0) /\
+    outcome (Vp8Decode.decode_frame ([16; 1; 0; 157; 1; 42; 200; 0; 100; 0] ++ repeat 0 8 ++ repeat 90 50)) = (7, 0, 0, 0, 0) /\
+    outcome (Vp8Decode.decode_frame ([16; 1; 0; 157; 1; 42; 1; 0; 1; 0] ++ repeat 0 8)) = (7, 0, 0, 0, 0) /\
+    outcome (Vp8Decode.decode_frame (repeat 255 40)) = (1, 0, 0, 0, 0) /\
+    outcome (Vp8Decode.decode_frame ([17; 1; 0] ++ repeat 0 30)) = (9, 0, 0, 0, 0).
+  Proof. exact VP8_safe_example.outcomes. Qed.
+End VS.
